@@ -101,3 +101,24 @@ def verdict(cond, nontrivial=True, sample=None):
     if TWIN:
         return False
     return c
+
+
+def in_shard_hash(values):
+    """Evenly spread concrete case descriptors (e.g. an equality pattern) over VP_SHARD workers."""
+    spec = os.environ.get("VP_SHARD", "")
+    if not spec:
+        return True
+    k, total = (int(x) for x in spec.split("/"))
+    h = 0
+    for v in values:
+        h = (h * 31 + int(v) + 7) % 1000003
+    return h % total == k
+
+
+def in_shard_index(idx):
+    """Round-robin assignment of an enumerated concrete case index to VP_SHARD workers."""
+    spec = os.environ.get("VP_SHARD", "")
+    if not spec:
+        return True
+    k, total = (int(x) for x in spec.split("/"))
+    return idx % total == k
